@@ -103,11 +103,18 @@ func Start(id, level string) *Run {
 		}
 	}
 	r.deadline = r.start.Add(budget)
-	b, err := os.ReadFile(filepath.Join(Root(), "known_findings.json"))
-	if err == nil {
+	files := []string{filepath.Join(Root(), "known_findings.json")}
+	more, _ := filepath.Glob(filepath.Join(Root(), "known_findings.d", "*.json"))
+	sort.Strings(more)
+	files = append(files, more...)
+	for _, p := range files {
+		b, err := os.ReadFile(p)
+		if err != nil {
+			continue
+		}
 		var fs []finding
 		if err := json.Unmarshal(b, &fs); err != nil {
-			Fatalf("known_findings.json: %v", err)
+			Fatalf("%s: %v", p, err)
 		}
 		for _, f := range fs {
 			if f.Property == id && f.Status == "known" {
